@@ -321,7 +321,12 @@ func (e *Engine) VerifyFunc(pkgPath, key string, modular bool) (rep *FuncReport,
 	v.reqs = append(v.reqs, sx.App(">=", sx.Atom("notifs0"), sx.Int(0)), sx.App(">=", sx.Atom("xcalls0"), sx.Int(0)))
 	for _, c := range fs.Clauses {
 		if c.Kind == "requires" {
-			v.reqs = append(v.reqs, v.pre.Tr(c.E).T)
+			t := v.pre.Tr(c.E).T
+			v.reqs = append(v.reqs, t)
+			// a precondition that is a plain boolean parameter (or its negation) also prunes the branches it excludes
+			if t.IsAtom() || (t.Head() == "not" && len(t.L) == 2 && t.L[1].IsAtom()) {
+				st.pc = append(st.pc, t)
+			}
 		}
 	}
 	if ast.IsExported(fn.Name()) && decl.Recv == nil {
